@@ -198,6 +198,10 @@ func c12Run(c *ev.Ctx, k c12Case, single bool) {
 		if len(frames) == 0 && serveErr != nil {
 			c.Violation("C12:error-on-clean-end", fmt.Sprintf("empty stream returned %v", serveErr), k)
 		}
+		// the stream ended INSIDE a frame (length prefix or body cut short): that is not a clean end between frames
+		if n := len(frames); n > 0 && !frames[n-1].complete && !frames[n-1].oversize && serveErr == nil && len(k.UAFault) == 0 {
+			c.Violation("C12:truncated-frame-ends-cleanly", fmt.Sprintf("the stream ended inside frame #%d (after %d complete frames) and service ended without an error", n-1, nComplete), k)
+		}
 	}
 	// per-response expectations, in request order
 	for i := 0; i < R && i < len(frames) && len(k.UAFault) == 0; i++ {
@@ -219,7 +223,7 @@ func c12Run(c *ev.Ctx, k c12Case, single bool) {
 }
 
 func checkC12(c *ev.Ctx) {
-	c.Rule("yubiagent.ServeAgent called synchronously on (bytes.Reader, bytes.Buffer) with the real *server (NewServer through the dial seam, remote mode) over the real shim and the harness underlying agent. Streams: every message code 0..255 x {code only, +00, +FF, +4 zero bytes} (wait frames use awaited codes 40/255), the empty frame, ~90 grammar-derived canonical and truncated frames (both add-hardware-certificate encodings, slot names, wait, every standard agent request incl. constraint bytes, raw-forward requests; a size ladder of well-formed sign / raw / add requests with bodies of 64 KiB, 256 KiB, 256 KiB+1, 1 MiB, 4 MiB and exactly 16 MiB, alone and between small requests; every ordered pair over 8 and triple over 5 medium/large requests on one connection), prefix pathologies (0..3 prefix bytes; declared 1, 2, 16MiB, 16MiB+1, 2^31, 2^32-1 with 0/1/all body bytes), every ordered pair of a 37-piece representative set, every piece on a SECOND connection after an earlier connection to the same server ended in one of 8 ways, every triple over a 20-piece subset (thorough: all triples, quadruples over 14). Oracle: no crash, framed output, one response per well-formed request in order with the expected type/content, service ends only at malformed frames and then with an error, clean end returns nil, allocation bound for oversized declarations. non-trivial = well-formed request answered; distinct by (frame, position)")
+	c.Rule("yubiagent.ServeAgent called synchronously on (bytes.Reader, bytes.Buffer) with the real *server (NewServer through the dial seam, remote mode) over the real shim and the harness underlying agent. Streams: every message code 0..255 x {code only, +00, +FF, +4 zero bytes} (wait frames use awaited codes 40/255), the empty frame, ~90 grammar-derived canonical and truncated frames (both add-hardware-certificate encodings, slot names, wait, every standard agent request incl. constraint bytes, raw-forward requests; a size ladder of well-formed sign / raw / add requests with bodies of 64 KiB, 256 KiB, 256 KiB+1, 1 MiB, 4 MiB and exactly 16 MiB, alone and between small requests; every ordered pair over 8 and triple over 5 medium/large requests on one connection; every large frame up to 1 MiB cut inside its body at every power of two >= 4096 and its neighbours (body and stream offsets), alone and after a complete request), prefix pathologies (0..3 prefix bytes; declared 1, 2, 16MiB, 16MiB+1, 2^31, 2^32-1 with 0/1/all body bytes), every ordered pair of a 37-piece representative set, every piece on a SECOND connection after an earlier connection to the same server ended in one of 8 ways, every triple over a 20-piece subset (thorough: all triples, quadruples over 14). Oracle: no crash, framed output, one response per well-formed request in order with the expected type/content, service ends only at malformed frames and then with an error, clean end returns nil, a stream that ends inside a frame ends with an error, allocation bound for oversized declarations. non-trivial = well-formed request answered; distinct by (frame, position)")
 	c.Assume("frames are classified well-formed only when they are canonical encodings produced by the harness grammar (x/crypto's own client for standard requests); for everything else either 'answered' or 'connection ended with an error' is accepted", "awaited codes below 40 block by design and are explored under C20")
 	c12Frames = map[string]frameSpec{}
 	gf := grammarFrames()
@@ -275,6 +279,30 @@ func checkC12(c *ev.Ctx) {
 					n++
 				}
 			}
+		}
+	}
+	// truncation ladder: every large frame cut inside its body at powers of two and their neighbours (chunked readers),
+	// alone and after a complete request
+	for _, f := range gf {
+		if len(f.Body) < 64<<10 || len(f.Body) > 1<<20 {
+			continue
+		}
+		full := vnet.Frame(f.Body)
+		cuts := map[int]bool{4: true, 5: true, len(full) - 1: true, 4 + len(f.Body)/2: true}
+		for p := 4096; p < len(f.Body); p *= 2 {
+			for _, d := range []int{-1, 0, 1} {
+				cuts[4+p+d] = true // body offset p+d
+				cuts[p+d] = true   // stream offset p+d
+			}
+		}
+		for cut := range cuts {
+			if cut <= 0 || cut >= len(full) {
+				continue
+			}
+			raw := hex.EncodeToString(full[:cut])
+			c12Run(c, c12Case{Pieces: []c12Piece{{Raw: raw}}, Note: fmt.Sprintf("%s cut after %d of %d stream bytes", f.Name, cut, len(full))}, true)
+			c12Run(c, c12Case{Pieces: []c12Piece{{Frame: "list"}, {Raw: raw}}, Note: fmt.Sprintf("list, then %s cut after %d stream bytes", f.Name, cut)}, false)
+			n += 2
 		}
 	}
 	// large well-formed requests inside a stream: answered once, later responses stay in order
